@@ -39,6 +39,7 @@ type Spec struct {
 	Elig  bool  `json:"elig,omitempty"`
 	Ivl   int64 `json:"ivl,omitempty"`  // RetryInterval, ns
 	Mode  int   `json:"mode,omitempty"` // 0 one result; 1 batch errors; 2 none; 3 twice; 4 no work id
+	Panic bool  `json:"panic,omitempty"` // with mode 1: the batch fails by a panic inside the pipeline instead of a returned error (the model sees a failed batch either way)
 }
 
 type ScriptEntry struct {
@@ -288,11 +289,13 @@ func (p *Pipe) CheckUpkeeps(ctx context.Context, ups ...common.UpkeepPayload) ([
 	}
 	var out []common.CheckResult
 	fail := cerr != nil
+	doPanic := false
 	for i, j := range inv.Jobs {
 		sp := SpecOf(script, j.P.Tag, j.Att)
 		switch sp.Mode {
 		case 1:
 			fail = true
+			doPanic = doPanic || sp.Panic
 		case 2:
 		case 3:
 			r := MkResult(sp, ups[i], j.P.Tag, j.Att)
@@ -316,6 +319,9 @@ func (p *Pipe) CheckUpkeeps(ctx context.Context, ups ...common.UpkeepPayload) ([
 	if fail {
 		if cerr != nil {
 			return nil, cerr
+		}
+		if doPanic {
+			panic("scripted pipeline panic")
 		}
 		return nil, fmt.Errorf("scripted batch failure")
 	}
